@@ -47,6 +47,35 @@ def chunk_property_pairs(rng, tier):
             pairs.append(("hist %s u %s c u %s p u %s l %s" % (v, hx(a), hx(b), hx(c2), ALLF),
                           "hist %s u %s l %s" % (v, hx(a + c2), ALLF)))
             pairs.append(("hist %s u %s c u %s w u %s w l %s" % (v, hx(a), hx(b), hx(c2), ALLF), ref))
+    # pieces whose size is a power of two (256 .. 64 KiB) plus a few bytes, first in the stream and after a short first piece,
+    # followed by more data and by a clone that continues (a block-wise fast path that mishandles the remainder)
+    ks = [8, 10, 12, 13] if tier == "quick" else [8, 9, 10, 11, 12, 13, 14, 16]
+    for k in ks:
+        S = 2 ** k
+        for r in ([0, 1, 2, 3, 4, 5, 7] if tier == "quick" else list(range(-2, 10))):
+            v = rng.choice(VNAMES)
+            rest = suites.gen_data(rng, 9 + rng.below(60))
+            for first in (0, 37):
+                big = 4 * (first == 0) + S + r
+                d = suites.gen_data(rng, first + big)
+                ref = "hist %s u %s l %s" % (v, hx(d + rest), ALLF)
+                head = ("u %s " % hx(d[:first])) if first else ""
+                pairs.append(("hist %s %su %s u %s l %s" % (v, head, hx(d[first:]), hx(rest), ALLF), ref))
+                pairs.append(("hist %s %su %s c u %s l %s" % (v, head, hx(d[first:]), hx(rest), ALLF), ref))
+    # pieces of about n bytes for every integer literal n that is new in the current source (empty on the audited tree)
+    import srcdict
+    for n in srcdict.new_literals()["ints"]:
+        if 2 <= n <= 70000:
+            for r in range(-2, 8):
+                for first in (0, 4, 37):
+                    if n + r < 1:
+                        continue
+                    v = rng.choice(VNAMES)
+                    d = suites.gen_data(rng, first + n + r)
+                    rest = suites.gen_data(rng, 9 + rng.below(40))
+                    ref = "hist %s u %s l %s" % (v, hx(d + rest), ALLF)
+                    head = ("u %s " % hx(d[:first])) if first else ""
+                    pairs.append(("hist %s %su %s u %s l %s" % (v, head, hx(d[first:]), hx(rest), ALLF), ref))
     return pairs
 
 
